@@ -15,7 +15,7 @@ Driver for C10. Case lines (see harness/c10/main.go):
       follow-ups: the same chain with every handler passing through; then the route [99: W] behind
       the first <global> handlers (router-global middleware; they have no behaviour there: return).
 
-  <id> T <waitH> <custom> <budget ms, 0 = 1h> <prog: n hact…> => <status> <body> <escaped> <releasedEarly> <hpanicked> <follow>
+  <id> T <waitH> <custom> <budget ms, 0 = 1h> <prog: n hact…> => <status> <body> <escaped> <releasedEarly> <hpanicked> <recovered> <follow>
       hact = W | D | X | aC | aE | aT | sH | aR | hold | P<v> | G<n>   (the timed chain, flattened; G<n> = Next's loop test)
 -/
 namespace Rivaas.DriverC10
@@ -167,11 +167,11 @@ open Rivaas.Timeout in
 def stepT (id : String) (inp obs : List String) : String :=
   let pIn : P (Bool × Bool × Nat × List HAct) := do
     let w ← bool; let c ← bool; let budget ← nat; let p ← list pHAct; pure (w, c, budget, p)
-  let pOut : P (Nat × List Nat × Option Nat × Bool × Bool × Nat) := do
-    let st ← nat; let b ← list nat; let e ← opt nat; let re ← bool; let hp ← bool; let f ← nat
-    pure (st, b, e, re, hp, f)
+  let pOut : P (Nat × List Nat × Option Nat × Bool × Bool × Bool × Nat) := do
+    let st ← nat; let b ← list nat; let e ← opt nat; let re ← bool; let hp ← bool; let rc ← bool; let f ← nat
+    pure (st, b, e, re, hp, rc, f)
   match runP pIn inp, runP pOut obs with
-  | some (waitH, _custom, budget, prog), some (st, b, e, re, hp, f) =>
+  | some (waitH, _custom, budget, prog), some (st, b, e, re, hp, rc, f) =>
     let fuel := 4 * prog.length + 16
     -- under a real budget the middleware's own timer may fire once everything else is blocked
     let sched := if budget > 0 then fairT waitH else fair waitH
@@ -181,16 +181,14 @@ def stepT (id : String) (inp obs : List String) : String :=
     if obsOf s1 != obsOf s2 || s1.rpc != .returned || s2.rpc != .returned then
       s!"{id} bad-case the program leaves the order of events open (or deadlocks) in the model"
     else
-      let mObs := (tStatus s1.status, s1.body, s1.releasedEarly, s1.panicChan.isSome, (229 : Nat))
+      let mObs := (tStatus s1.status, s1.body, s1.releasedEarly, s1.panicChan.isSome, s1.recovered.isSome, (229 : Nat))
       let body := b.map tChunk
-      let iObs := (st, body, re, hp, f)
+      let iObs := (st, body, re, hp, rc, f)
       let io : TObs := { status := (if st == 408 then some .t408 else if st == 500 then some .rec500 else if st == 200 then none else some .h),
-                         body := body, escaped := e.isSome, releasedEarly := re, hPanicked := hp }
-      let d := if dK10b prog [] then "K10b" else if dK10a prog [.dl] && budget > 0 || dK10a prog [] then "K10a"
-               else if dK10d prog [.dl] && budget > 0 || dK10d prog [] then "K10d" else "-"
+                         body := body, escaped := e.isSome, releasedEarly := re, hPanicked := hp, recovered := rc }
       let chs : Timeout.Chunk → String | .h => "7" | .t408 => toString timeoutChunk | .rec500 => toString recChunk
-      verdict id (mObs == iObs && e.isNone) (timeoutOK io && f == 229) d
-        s!"{tStatus s1.status} {s1.body.length} {" ".intercalate (s1.body.map chs)} 0 {if s1.releasedEarly then 1 else 0} {if s1.panicChan.isSome then 1 else 0} 229"
+      verdict id (mObs == iObs && e.isNone) (timeoutOK io && f == 229) "-"
+        s!"{tStatus s1.status} {s1.body.length} {" ".intercalate (s1.body.map chs)} 0 {if s1.releasedEarly then 1 else 0} {if s1.panicChan.isSome then 1 else 0} {if s1.recovered.isSome then 1 else 0} 229"
   | _, _ => s!"{id} bad-case"
 
 def step (line : String) : String :=
